@@ -62,7 +62,8 @@ def tree(draw):
     selected = [f for f in sorted(files) if not f.startswith("derivatives/") and (everything or draw(st.integers(0, 4)) > 0)]
     if not selected:
         selected = [sorted(f for f in files if not f.startswith("derivatives/"))[0]]
-    return {"files": files, "selected": selected, "name": draw(st.sampled_from(["default_back", "b2", "my backup"]))}
+    return {"files": files, "selected": selected, "name": draw(st.sampled_from(["default_back", "b2", "my backup"])),
+            "implicit_name": draw(st.booleans())}
 
 
 @st.composite
@@ -113,9 +114,11 @@ def oracle_history(case):
     root = write_tree(case["files"])
     try:
         name = case["name"]
+        # the default backup may be asked for by leaving the name out
+        create_name = None if (name == BackupManager.DEFAULT_BACKUP_NAME and case.get("implicit_name")) else name
         man = BackupManager(root)
         sel = [os.path.join(root, f) for f in case["selected"]]
-        ok = man.create_backup(sel, backup_name=name, verbose=False)
+        ok = man.create_backup(sel, backup_name=create_name, verbose=False)
         if ok is not True:
             return out.bad("first-backup-refused", str(ok))
         model = {f: case["files"][f].encode() for f in case["selected"]}
@@ -132,6 +135,7 @@ def oracle_history(case):
                 changed_between = True
             elif k == "add_file":
                 q = p + ".new_events.tsv"
+                os.makedirs(os.path.dirname(q), exist_ok=True)
                 with open(q, "wb") as fp:
                     fp.write(op["content"].encode())
             elif k == "delete":
@@ -150,7 +154,7 @@ def oracle_history(case):
                     out.bad("backup-not-listed-after-reopen", name)
             elif k == "create_again":
                 before = snapshot_dir(backup_dir)
-                res = man.create_backup(sel, backup_name=name, verbose=False)
+                res = man.create_backup(sel, backup_name=create_name, verbose=False)
                 if res is not False:
                     out.bad("existing-backup-not-refused", repr(res))
                 if snapshot_dir(backup_dir) != before:
